@@ -566,12 +566,31 @@ def load_impl(tree: Any, via_yaml: str | None = None) -> dict[str, Any]:
         if via_yaml is not None:
             loaded = KSKMConfig.from_yaml(io.StringIO(via_yaml))
         else:
-            loaded = KSKMConfig.from_dict(copy.deepcopy(tree))
+            mine = copy.deepcopy(tree)
+            loaded = KSKMConfig.from_dict(mine)
+            # "stated values are loaded exactly" holds for every load: loading must not depend on, or change, what was
+            # loaded before from the same dict (the loader's own comment: "do not modify the caller's data")
+            RELOAD["loads"] += 1
+            if isinstance(tree, dict) and len(RELOAD["problems"]) < 40:
+                first = canon(loaded)
+                if mine != tree:
+                    RELOAD["modified"] += 1  # recorded; the property is judged on the second load below
+                try:
+                    second: Any = {"ok": canon(KSKMConfig.from_dict(mine))}
+                except BaseException as exc2:  # noqa: BLE001
+                    second = {"error": error_class(exc2)}
+                if second != {"ok": first}:
+                    diff = first_diff({"ok": first}, second) if "ok" in second else second
+                    RELOAD["problems"].append({"kind": "second-load-differs", "tree": tree, "difference": diff, "caller_dict_modified": mine != tree})
     except (KeyboardInterrupt, SystemExit):
         raise
     except BaseException as exc:  # noqa: BLE001
         return {"error": error_class(exc)}
     return {"ok": canon(loaded)}
+
+
+RELOAD: dict[str, Any] = {"loads": 0, "modified": 0, "problems": []}
+WHAT_RELOAD = "a second load of the same configuration dict does not give the stated values (the first load modified its caller's data)"
 
 
 def coarse(o: Any) -> str:
@@ -936,6 +955,10 @@ def run(tier: str, driver_ok: bool) -> Result:
             if other is not main_stream:
                 other(res, tier, r, scratch, driver_ok)
         SHARED = None
+    res.stats["reload:successful from_dict loads probed"] = RELOAD["loads"]
+    res.stats["reload:caller's dict modified by the load"] = RELOAD["modified"]
+    for pr in RELOAD["problems"]:
+        res.violation(WHAT_RELOAD, {"stream": "reload", "tree": pr["tree"]}, key="reload:" + pr["kind"], **{k: v for k, v in pr.items() if k not in ("kind", "tree")})
     return res
 
 
